@@ -33,17 +33,22 @@ add("C01", "P", "exploration",
     "Every LP the real pipeline solves in seeded histories (all option families, horizons 48..120, overrides, country and world "
     "jobs) is audited against an independent monthly ledger built from the captured supplies only (stored food, crops, meat, SCP, "
     "sugar, seaweed growth ledger, non-negativity, exhaustion, charge equalities / ceilings / monotone feed). The solver channel "
-    "is explored: real CBC, or a seeded random vertex of the optimal face (HiGHS stand-in), plus fail-stop solver faults. Sampling.",
+    "is explored: real CBC, or a seeded random vertex of the optimal face (HiGHS stand-in), plus solver faults (cannot run, non-optimal "
+    "status with or without a written iterate, biased to the first and the secondary solves of each round, faulted job usually first and "
+    "often followed by a retry of the same country with one setting changed). Sampling.",
     "Trusted: the ledger re-implementation in sim/monitors.py (written from the property text), row-scaled tolerance 1e-6, HiGHS as "
     "a legal stand-in for CBC in vertex mode. Known finding F01a (meat eaten before slaughter) is suppressed only when the documented rule holds.",
     "seeded histories on the real pipeline with solver-vertex/fault exploration, independent ledger-audit monitor", "DESIGN.md 5/C01")
 add("C02", "P", "exploration",
     "Workload-driven reference-model check: for every LP instance that real seeded runs produce (round-2/3 instances only exist "
     "inside real runs) the reported optimum is compared (5e-5 relative) with an LP formulated independently in matrix form "
-    "(prefix-sum ledgers, no stock variables, intake caps, charges, pins, objective) and solved by HiGHS; a second reference with "
+    "(prefix-sum ledgers, no stock variables, intake caps, charges, pins, objective) and solved by HiGHS - in two steps: the LP exactly as "
+    "the code hands it to its solver (captured at the solver seam, solved by HiGHS) vs. the reference (formulation, 5e-5, confirmed at 1e-9), "
+    "and the figure reported from CBC vs. the optimum of that same LP (solver accuracy, 1e-3); a second reference with "
     "the physical meat ledger decides physical achievability. The simulator contributes instance supply and fail-stop relaxation "
     "only: the optimum does not depend on schedule or vertex.",
-    "Trusted: the reference formulation (sim/reflp.py) and HiGHS; measured agreement with the code 1.4e-7 relative over hundreds of LPs.",
+    "Trusted: the reference formulation (sim/reflp.py) and HiGHS; two HiGHS solves of equivalent LPs agree to 1.3e-5 relative, CBC at its "
+    "default tolerances is up to 1.4e-4 short of the optimum of its own LP (WOR + seaweed), see DESIGN.md 13.3.",
     "reference-model oracle (independent LP, different solver) riding on seeded simulated runs", "DESIGN.md 5/C02")
 add("C03", "P", "exploration",
     "Relation over the recorded three-round history of seeded jobs (threshold T randomised 0..100, cbc or random optimal vertex, "
